@@ -389,6 +389,76 @@ pub fn do_forge_update(w: &mut World, s: usize, g: usize, q: usize, victim: Opti
     Ok(true)
 }
 
+/// B-FORGE-EXT: the external sender (listed in the external-senders extension, its key held by the harness) signs an
+/// Update proposal - a proposal type an external sender may not send. Members cache it like any proposal; a committer
+/// must drop it and report it unused.
+pub fn do_forge_ext_update(w: &mut World, g: usize, q: usize) -> VResult<bool> {
+    let Some((sk, _sid)) = w.ext.ext_sender.clone() else { return Ok(false) };
+    if g >= w.groups.len() || w.cfg.encrypt_handshake || w.groups[g].reinit_at.is_some() {
+        return Ok(false);
+    }
+    let epoch = w.groups[g].log.len() as u64;
+    let Some(rec) = w.groups[g].records.get(&epoch).cloned() else { return Ok(false) };
+    let Some(members) = w.groups[g].members.get(&epoch).cloned() else { return Ok(false) };
+    if members.is_empty() {
+        return Ok(false);
+    }
+    let Ok(tree) = crate::refmls::Tree::parse(&rec.tree) else { return Ok(false) };
+    let leaves: Vec<u32> = members.values().copied().collect();
+    let Some(leaf) = tree.leaf(leaves[q % leaves.len()]) else { return Ok(false) };
+    // FramedContent: sender = external(0); content = Proposal(update, a copy of a member's leaf)
+    let mut content = vec![];
+    put_vec(&mut content, &w.groups[g].gid);
+    content.extend_from_slice(&epoch.to_be_bytes());
+    content.push(2);
+    content.extend_from_slice(&0u32.to_be_bytes());
+    put_vec(&mut content, &[]);
+    content.push(2);
+    content.extend_from_slice(&[0, 2]);
+    content.extend_from_slice(&leaf.raw);
+    // (an external sender's signature does not cover the group context)
+    let mut tbs = vec![0, 1, 0, 1];
+    tbs.extend_from_slice(&content);
+    let mut sc = vec![];
+    put_vec(&mut sc, b"MLS 1.0 FramedContentTBS");
+    put_vec(&mut sc, &tbs);
+    let csp = w.idgen_suite();
+    let Ok(sig) = csp.sign(&sk, &sc) else { return Ok(false) };
+    let mut bytes = vec![0, 1, 0, 1];
+    bytes.extend_from_slice(&content);
+    put_vec(&mut bytes, &sig);
+    w.stats.fault("B-FORGE-EXT");
+    let id = w.new_msg_id();
+    w.ev(format!("external sender sends an Update proposal g{g} e{epoch} id={id}"));
+    let msg = Msg {
+        id,
+        g,
+        kind: MsgKind::Proposal,
+        bytes,
+        sender: crate::observer::EXT_SENDER,
+        epoch,
+        payload: vec![],
+        aad: vec![],
+        refs: vec![],
+        welcomes: vec![],
+        oob_tree: None,
+        external: true,
+        ext_psks: vec![],
+        res_psks: vec![],
+        private: false,
+        spec: None,
+        pspec: Some(PropSpec::Template { t: 20, q: 0 }),
+        time: w.clock,
+        gen: 0,
+    };
+    w.msgs.insert(id, msg);
+    w.groups[g].props.entry(epoch).or_default().push(id);
+    for p in members.keys() {
+        w.mem(*p, g).inbox.push(id);
+    }
+    Ok(true)
+}
+
 pub fn do_forge(w: &mut World, s: usize, g: usize, template: u64, q: usize) -> VResult<bool> {
     if !w.live(s, g) || w.cfg.encrypt_handshake {
         return Ok(false);
